@@ -985,6 +985,16 @@ func (k Keeper) DeductServiceFees(
 	consumer sdk.AccAddress,
 	serviceFees sdk.Coins,
 ) error {
+	// The bank keeper debits coin by coin and relies on the surrounding transaction being rolled
+	// back on error. The end blocker has no such rollback (it pauses the context and goes on), so
+	// refuse up front when the consumer cannot pay every denom.
+	if spendable := k.bankKeeper.SpendableCoins(ctx, consumer); !spendable.IsAllGTE(serviceFees) {
+		return errorsmod.Wrapf(
+			sdkerrors.ErrInsufficientFunds,
+			"spendable balance %s is smaller than %s", spendable, serviceFees,
+		)
+	}
+
 	return k.bankKeeper.SendCoinsFromAccountToModule(
 		ctx,
 		consumer,
